@@ -49,9 +49,10 @@ GLOB_PAT_ALPHA = ("a", "b", "*", "?", "[", "]", "!")
 GLOB_TEXT_ALPHA = ("a", "b")
 VER_ALPHA = (0, 1, 2, 9, 10)
 TAG_KEYS = ("k", "j")
-TAG_VALUES = ("v", "", "m:op@2020-01-01", "a:b:op@2020-01-01", "noat", "m:noat", "m:op@bad")
+TAG_VALUES = ("v", "", "m:op@2020-01-01", "a:b:op@2020-01-01", "noat", "m:noat", "m:op@bad", "op@2020-01-01", "m op@2020-01-01", ":op@2020-01-01", "m:@2020-01-01")
 TAG_VALUE_KIND = {"v": "plain", "": "empty", "m:op@2020-01-01": "marked", "a:b:op@2020-01-01": "marked-colon-in-message",
-                  "noat": "no-colon", "m:noat": "no-at", "m:op@bad": "bad-date", None: "absent"}
+                  "noat": "no-colon", "m:noat": "no-at", "m:op@bad": "bad-date", None: "absent",
+                  "op@2020-01-01": "no-colon-but-at-date", "m op@2020-01-01": "no-colon-but-at-date", ":op@2020-01-01": "empty-message", "m:@2020-01-01": "empty-action"}
 TAG_TARGETS = ("k", "j", "z")
 CIDR_BASES = ("0.0.0.0", "10.0.0.0", "10.128.0.0", "172.16.254.0", "192.168.1.128", "255.255.255.255")
 CIDR_BASES_MORE = ("127.0.0.1", "100.64.0.0", "169.254.169.254", "224.0.0.0")
